@@ -2,6 +2,7 @@ package main
 
 import (
 	"bytes"
+	"crypto/sha1"
 	"encoding/binary"
 	"fmt"
 
@@ -43,20 +44,26 @@ func checkSpec(o *observation) ([]finding, *analysis) {
 		out = append(out, finding{key, fmt.Sprintf(f, a...)})
 	}
 	mode := o.Spec.Mode
-	byFrame := map[string]*sendRec{}
+	// frames are looked up by digest (a thorough batch holds gigabytes of frames: no second copy of them)
+	byFrame := map[[20]byte]*sendRec{}
 	for _, s := range o.Sends {
-		byFrame[string(s.frame)] = s
+		byFrame[sha1.Sum(s.frame)] = s
 	}
 	// the same frames with the license-hash field blanked: a frame that matches only here has the
 	// right pack and project code but the hash of a license that was not in effect for that send
-	noLic := func(f []byte) string {
-		g := append([]byte(nil), f...)
-		if len(g) >= 18 {
-			copy(g[10:18], make([]byte, 8))
+	noLic := func(f []byte) [20]byte {
+		if len(f) < 18 {
+			return sha1.Sum(f)
 		}
-		return string(g)
+		h := sha1.New()
+		h.Write(f[:10])
+		h.Write(make([]byte, 8))
+		h.Write(f[18:])
+		var d [20]byte
+		copy(d[:], h.Sum(nil))
+		return d
 	}
-	byFrameNoLic := map[string]*sendRec{}
+	byFrameNoLic := map[[20]byte]*sendRec{}
 	for _, s := range o.Sends {
 		byFrameNoLic[noLic(s.frame)] = s
 	}
@@ -74,7 +81,10 @@ func checkSpec(o *observation) ([]finding, *analysis) {
 			continue
 		}
 		for pos, f := range frames {
-			s := byFrame[string(f)]
+			s := byFrame[sha1.Sum(f)]
+			if s != nil && !bytes.Equal(s.frame, f) {
+				s = nil
+			}
 			if s == nil && foreignFrame(f, o.Nonce) {
 				// a client of another run reached this listener (loopback port reuse): not an observation of this client
 				o.Infra = "a foreign client delivered frames to this scenario's listener"
